@@ -45,6 +45,7 @@ class Source:
                     n_t = normalize.inline_new_temps(self.tree, localnames.table().get(rel, {}))
                     if n_t:
                         self.normalised["temporaries"] = n_t
+                        normalize.finish(self.tree)
             else:
                 self.tree = ast.parse(text, filename=rel)
                 # undo behaviour-preserving refactorings (new constants, helpers, table loops: normalize.py) ...
@@ -55,6 +56,7 @@ class Source:
                 n_t = normalize.inline_new_temps(self.tree, localnames.table().get(rel, {}))
                 if n_t:
                     self.normalised["temporaries"] = n_t
+                    normalize.finish(self.tree)
         except pyxfront.LoweringError as e:
             raise AnalysisError(f"cannot lower {rel}: {e}")
         except SyntaxError as e:
